@@ -299,7 +299,7 @@ def mj_efc_dense(mjm, mjd):
     if mujoco.mj_isSparse(mjm):
       mujoco.mju_sparse2dense(J, mjd.efc_J, mjd.efc_J_rownnz, mjd.efc_J_rowadr, mjd.efc_J_colind)
     else:
-      J[:] = mjd.efc_J.reshape(nefc, nv)
+      J[:] = np.asarray(mjd.efc_J)[: nefc * nv].reshape(nefc, nv)
   out = dict(J=J, nefc=nefc)
   for k in ("type", "id", "pos", "margin", "D", "vel", "aref", "frictionloss", "force", "state"):
     out[k] = np.array(getattr(mjd, "efc_" + k)[:nefc])
